@@ -1621,3 +1621,54 @@ class SetList:
             self.length = self.length - 1
             return None
         raise Unsupported("SetList.%s" % name)
+
+
+def file_method(E, f, name, args, kwargs):
+    """Ghost file (assumed model of a binary file object opened 'a+b'): content = (z3 array, length term), position.
+       read(n) returns content[pos : pos+n] cut at EOF and advances; seek(o, 0|1); write appends at the end."""
+    c = f.content
+    if name == "read":
+        if not args:
+            raise Unsupported("read() without size")
+        n = E.as_int(args[0])
+        zn, pos, ln = zint(n), zint(f.pos), zint(c.length)
+        if isinstance(n, int) and n < 0:
+            raise Unsupported("read(-1)")
+        if not isinstance(n, int) and not E.branch(zn >= 0):
+            raise Unsupported("read(negative)")
+        avail = z3.If(pos <= ln, ln - pos, z3.IntVal(0))
+        got = z3.simplify(z3.If(zn <= avail, zn, avail))
+        g = c.get
+        r = SSeq("bytes", got, lambda i, pos=pos: g(z3.simplify(pos + zint(i))))
+        f.pos = z3.simplify(pos + got)
+        return r
+    if name == "seek":
+        off = zint(E.as_int(args[0]))
+        wh = args[1] if len(args) > 1 else 0
+        if wh == 0:
+            if not E.branch(off >= 0):
+                E.raise_(ValueError, "negative seek position", implicit="seek")
+            f.pos = off
+        elif wh == 1:
+            np_ = z3.simplify(zint(f.pos) + off)
+            if not E.branch(np_ >= 0):
+                E.raise_(OSError, "invalid argument", implicit="seek")
+            f.pos = np_
+        else:
+            raise Unsupported("seek whence %r" % (wh,))
+        return wrap_int(f.pos)
+    if name == "write":
+        d = as_seq(E, args[0])
+        if d.kind not in BYTESLIKE:
+            E.raise_(TypeError, "a bytes-like object is required", implicit="write")
+        d = conv_seq(d, "bytes") if d.kind.startswith("array") else d
+        r = concat(c.clone(), d, "bytes")
+        c.length, c.get = r.length, r.get
+        f.pos = c.length
+        f.writes = getattr(f, "writes", 0) + 1
+        return wrap_int(d.length) if not isinstance(d.length, int) else d.length
+    if name in ("close", "flush"):
+        return None
+    if name == "tell":
+        return wrap_int(f.pos)
+    raise Unsupported("file.%s" % name)
